@@ -10,9 +10,10 @@ package quic
 
 import (
 	"context"
-	"errors"
 	"fmt"
 	"io"
+	"sort"
+	"strings"
 	"sync"
 	"testing"
 	"testing/synctest"
@@ -27,7 +28,7 @@ type c19Scn struct {
 	Bytes   int    `json:"bytes"`   // bytes per direction of the first stream (others derive from it)
 	WChunk  int    `json:"wchunk"`  // bytes per Write call, 0 = everything in one call
 	Flush   string `json:"flush"`   // each | end | none
-	RChunk  int    `json:"rchunk"`  // Read buffer size, 0 = 64 KiB
+	RChunk  int    `json:"rchunk"`  // Read buffer size, 0 = 16 KiB
 	Buf     int    `json:"buf"`     // 0 = default buffers, else MaxStream{Write,Read}BufferSize = MaxConnReadBufferSize = Buf on both sides
 }
 
@@ -60,6 +61,36 @@ func c19Size(sc c19Scn, id int64) int {
 
 type c19Fail struct{ sig, what string }
 
+// c19ErrClass maps an error to a coarse class for signatures.
+func c19ErrClass(err error) string {
+	if err == nil {
+		return "short"
+	}
+	m := err.Error()
+	for _, k := range [][2]string{
+		{"context canceled", "never-returned"}, // unblocked only by the harness teardown
+		{"deadline exceeded", "never-returned"},
+		{"idle timeout", "idle-timeout"},
+		{"handshake timeout", "handshake-timeout"},
+		{"stream reset", "stream-reset"},
+		{"reset stream", "stream-reset"},
+		{"closed stream", "closed-stream"},
+		{"PROTOCOL_VIOLATION", "peer-protocol-violation"},
+		{"FLOW_CONTROL", "flow-control-error"},
+		{"FINAL_SIZE", "final-size-error"},
+		{"STREAM_STATE", "stream-state-error"},
+		{"STREAM_LIMIT", "stream-limit-error"},
+		{"INTERNAL", "internal-error"},
+		{"connection closed", "conn-closed"},
+		{"closed connection", "conn-closed"},
+	} {
+		if strings.Contains(m, k[0]) {
+			return k[1]
+		}
+	}
+	return "error"
+}
+
 type c19Run struct {
 	mu      sync.Mutex
 	fails   []c19Fail
@@ -73,6 +104,7 @@ type c19Run struct {
 	closeOK int // Close calls that returned nil
 	closeNZ int // Close calls that returned an error
 	trace   []c19TraceEnt
+	dbg     func(string) // development aid (c19_debug_test.go)
 }
 
 func (r *c19Run) failf(sig, format string, a ...any) {
@@ -99,14 +131,14 @@ func c19Writer(r *c19Run, sc c19Scn, s *Stream, live bool) bool {
 		m, err := s.Write(data[off : off+n])
 		if err != nil || m != n {
 			if live {
-				r.failf("C19/write/error", "stream %d: Write(%d bytes at %d) = %d, %v", id, n, off, m, err)
+				r.failf("C19/complete/write-"+c19ErrClass(err), "stream %d: Write(%d bytes at %d) = %d, %v", id, n, off, m, err)
 			}
 			return false
 		}
 		if sc.Flush == "each" {
 			if err := s.Flush(); err != nil {
 				if live {
-					r.failf("C19/write/flush-error", "stream %d: Flush at %d: %v", id, off+n, err)
+					r.failf("C19/complete/flush-"+c19ErrClass(err), "stream %d: Flush at %d: %v", id, off+n, err)
 				}
 				return false
 			}
@@ -115,7 +147,7 @@ func c19Writer(r *c19Run, sc c19Scn, s *Stream, live bool) bool {
 	if sc.Flush == "end" {
 		if err := s.Flush(); err != nil {
 			if live {
-				r.failf("C19/write/flush-error", "stream %d: final Flush: %v", id, err)
+				r.failf("C19/complete/flush-"+c19ErrClass(err), "stream %d: final Flush: %v", id, err)
 			}
 			return false
 		}
@@ -129,7 +161,7 @@ func c19Reader(r *c19Run, sc c19Scn, s *Stream, live bool) bool {
 	total := c19Size(sc, id)
 	n := sc.RChunk
 	if n <= 0 {
-		n = 64 << 10
+		n = 16 << 10
 	}
 	buf := make([]byte, n)
 	got, zero := 0, 0
@@ -155,7 +187,7 @@ func c19Reader(r *c19Run, sc c19Scn, s *Stream, live bool) bool {
 		}
 		if err != nil {
 			if live {
-				r.failf("C19/read/error", "stream %d: Read error after %d of %d bytes: %v", id, got, total, err)
+				r.failf("C19/complete/read-"+c19ErrClass(err), "stream %d: Read error after %d of %d bytes: %v", id, got, total, err)
 			}
 			return false
 		}
@@ -191,7 +223,7 @@ func c19Close(r *c19Run, sc c19Scn, s *Stream, peer *c19QLog, live bool) {
 		return
 	}
 	if live {
-		r.failf("C19/close/error", "stream %d: Close = %v although the network delivers again", id, err)
+		r.failf("C19/complete/close-"+c19ErrClass(err), "stream %d: Close = %v although the network delivers again", id, err)
 	}
 }
 
@@ -204,7 +236,10 @@ func c19Bubble(r *c19Run, cs c19Case) {
 			live = false
 		}
 	}
-	var conf Config
+	// Timeouts are not part of the property (a long enough silence may
+	// legitimately kill a connection): they are switched off, completion is
+	// judged against the fake-time horizon instead.
+	conf := Config{HandshakeTimeout: -1, MaxIdleTimeout: -1}
 	if sc.Buf > 0 {
 		conf.MaxStreamWriteBufferSize = int64(sc.Buf)
 		conf.MaxStreamReadBufferSize = int64(sc.Buf)
@@ -212,6 +247,11 @@ func c19Bubble(r *c19Run, cs c19Case) {
 	}
 	start := time.Now()
 	p := c19NewPair(cs.Devs, conf, conf)
+	if r.dbg != nil {
+		p.cliQ.dbg = func(s string) { r.dbg(fmt.Sprintf("%v CLI %s", time.Since(start), s)) }
+		p.srvQ.dbg = func(s string) { r.dbg(fmt.Sprintf("%v SRV %s", time.Since(start), s)) }
+		p.net.dbg = func(s string) { r.dbg(fmt.Sprintf("%v NET %s", time.Since(start), s)) }
+	}
 	defer p.shutdown()
 	if p.setupErr != nil {
 		r.failf("C19/harness/setup", "%v", p.setupErr)
@@ -280,7 +320,7 @@ func c19Bubble(r *c19Run, cs c19Case) {
 		conn, err := p.cliEP.Dial(ctx, "udp", c19ServerAddr.String(), p.cliConf)
 		if err != nil {
 			if live {
-				r.failf("C19/complete/dial-failed", "Dial: %v", err)
+				r.failf("C19/complete/dial-"+c19ErrClass(err), "Dial: %v", err)
 			}
 			return
 		}
@@ -293,7 +333,7 @@ func c19Bubble(r *c19Run, cs c19Case) {
 			}
 			if err != nil {
 				if live {
-					r.failf("C19/complete/new-stream-failed", "NewStream: %v", err)
+					r.failf("C19/complete/newstream-"+c19ErrClass(err), "NewStream: %v", err)
 				}
 				return
 			}
@@ -314,7 +354,7 @@ func c19Bubble(r *c19Run, cs c19Case) {
 		conn, err := p.srvEP.Accept(ctx)
 		if err != nil {
 			if live {
-				r.failf("C19/complete/accept-failed", "Accept: %v", err)
+				r.failf("C19/complete/accept-"+c19ErrClass(err), "Accept: %v", err)
 			}
 			return
 		}
@@ -322,7 +362,7 @@ func c19Bubble(r *c19Run, cs c19Case) {
 			s, err := conn.AcceptStream(ctx)
 			if err != nil {
 				if live {
-					r.failf("C19/complete/accept-stream-failed", "AcceptStream %d: %v", k, err)
+					r.failf("C19/complete/acceptstream-"+c19ErrClass(err), "AcceptStream %d: %v", k, err)
 				}
 				return
 			}
@@ -343,7 +383,7 @@ func c19Bubble(r *c19Run, cs c19Case) {
 	go func() { wg.Wait(); close(done) }()
 
 	skipOff := false
-	end := p.net.run(done, 5*time.Minute, 4000, func() {
+	end := p.net.run(done, c19Horizon, 4000, func() {
 		if skipOff {
 			return
 		}
@@ -374,7 +414,7 @@ func c19Bubble(r *c19Run, cs c19Case) {
 	switch end {
 	case "stall":
 		if live {
-			r.failf("C19/complete/stall", "applications not finished after 5 min of fake time on a network that delivers everything (datagrams=%d)", r.ndgrams)
+			r.failf("C19/complete/stall", "applications not finished after %v of fake time on a network that delivers everything (datagrams=%d)", c19Horizon, r.ndgrams)
 		}
 	case "storm":
 		r.failf("C19/complete/datagram-storm", "more than 4000 datagrams for a transfer of %d bytes", sc.Bytes)
@@ -387,13 +427,17 @@ func c19Bubble(r *c19Run, cs c19Case) {
 }
 
 // c19Exec runs one case in its own bubble and reports through w.
-func c19Exec(t *testing.T, cs c19Case) *c19Run {
-	r := &c19Run{}
+func c19Exec(t *testing.T, cs c19Case) *c19Run { return c19ExecDbg(t, cs, nil) }
+
+func c19ExecDbg(t *testing.T, cs c19Case, dbg func(string)) *c19Run {
+	r := &c19Run{dbg: dbg}
 	t.Run("b", func(t *testing.T) {
 		synctest.Test(t, func(t *testing.T) { c19Bubble(r, cs) })
 	})
 	return r
 }
+
+const c19Horizon = time.Hour
 
 var c19Kinds = []string{"drop", "dup", "dup3", "hold1", "hold3", "late", "part"}
 
@@ -404,16 +448,17 @@ func c19Scenarios(c *vx.Ctx) (all []c19Scn, small []c19Scn) {
 		{Streams: "uni1", Bytes: 100, WChunk: 1, Flush: "none", RChunk: 1},
 		{Streams: "uni1", Bytes: 1200, WChunk: 100, Flush: "each", RChunk: 100},
 		{Streams: "bidi1", Bytes: 100, Flush: "end"},
-		{Streams: "uni3", Bytes: 100, Flush: "none", RChunk: 100},
-		{Streams: "uni1", Bytes: 1200, Flush: "none", Buf: 512, RChunk: 100},
 	}
 	all = append(all, small...)
 	add := func(s c19Scn) { all = append(all, s) }
 	// Every value of every dimension occurs, and the pairs that interact
 	// (size x buffer, size x chunking, streams x buffer) are crossed.
+	add(c19Scn{Streams: "uni3", Bytes: 100, Flush: "none", RChunk: 100})
+	add(c19Scn{Streams: "uni1", Bytes: 600, Flush: "none", Buf: 512, RChunk: 100})
+	add(c19Scn{Streams: "uni1", Bytes: 1200, Flush: "none", Buf: 512, RChunk: 100})
 	for _, st := range []string{"uni1", "bidi1", "uni3"} {
+		add(c19Scn{Streams: st, Bytes: 5000, WChunk: 100, Flush: "none", RChunk: 100})
 		for _, buf := range []int{0, 512} {
-			add(c19Scn{Streams: st, Bytes: 5000, WChunk: 100, Flush: "none", RChunk: 100, Buf: buf})
 			add(c19Scn{Streams: st, Bytes: 1200, Flush: "end", RChunk: 1, Buf: buf})
 		}
 	}
@@ -422,12 +467,19 @@ func c19Scenarios(c *vx.Ctx) (all []c19Scn, small []c19Scn) {
 	add(c19Scn{Streams: "uni1", Bytes: 5000, WChunk: 100, Flush: "each", Buf: 512})
 	add(c19Scn{Streams: "bidi1", Bytes: 1, Flush: "none", Buf: 512})
 	add(c19Scn{Streams: "uni1", Bytes: 40000, Flush: "none"})
-	add(c19Scn{Streams: "uni3", Bytes: 5000, WChunk: 100, Flush: "each", RChunk: 1, Buf: 512})
 	if !c.Quick() {
+		// long runs (hundreds of datagrams: tiny windows, byte-wise readers)
+		for _, st := range []string{"uni1", "bidi1", "uni3"} {
+			add(c19Scn{Streams: st, Bytes: 5000, WChunk: 100, Flush: "none", RChunk: 100, Buf: 512})
+		}
+		add(c19Scn{Streams: "uni3", Bytes: 5000, WChunk: 100, Flush: "each", RChunk: 1, Buf: 512})
 		for _, st := range []string{"uni1", "bidi1", "uni3"} {
 			for _, by := range []int{1, 100, 1200, 5000} {
 				for _, fl := range []string{"each", "end", "none"} {
 					for _, buf := range []int{0, 512} {
+						if by == 5000 && buf == 512 {
+							continue // covered above
+						}
 						add(c19Scn{Streams: st, Bytes: by, WChunk: 100, Flush: fl, RChunk: 100, Buf: buf})
 					}
 				}
@@ -450,8 +502,22 @@ func c19Scenarios(c *vx.Ctx) (all []c19Scn, small []c19Scn) {
 }
 
 func c19Report(w *vx.W, cs c19Case, r *c19Run) {
+	// Abstract trigger for the liveness clause: the set of deviation kinds.
+	var kinds []string
+	for _, d := range cs.Devs {
+		kinds = append(kinds, d.Kind)
+	}
+	sort.Strings(kinds)
+	trig := strings.Join(kinds, "+")
+	if trig == "" {
+		trig = "none"
+	}
 	for _, f := range r.fails {
-		w.Fail(f.sig, f.what+fmt.Sprintf(" [end=%s datagrams=%d applied=%d fake=%v]", r.end, r.ndgrams, r.applied, r.elapsed))
+		sig := f.sig
+		if strings.HasPrefix(sig, "C19/complete/") {
+			sig += "/" + trig
+		}
+		w.Fail(sig, f.what+fmt.Sprintf(" [end=%s datagrams=%d applied=%d fake=%v]", r.end, r.ndgrams, r.applied, r.elapsed))
 	}
 	if r.applied == len(cs.Devs) && r.end == "done" {
 		w.Nontrivial()
@@ -474,75 +540,108 @@ func TestVerif_C19(t *testing.T) {
 		for _, s := range small {
 			isSmall[s] = true
 		}
+		// Deviation kinds used for placements of two or more deviations.
+		kindsMulti := []string{"drop", "dup3", "hold1", "late", "part"}
 		kAll := vx.Pick(c, 1, 2)
 		kSmall := vx.Pick(c, 2, 3)
-		c.Rule(fmt.Sprintf("fault enumeration: %d application scenarios (streams x bytes x write chunking x flush x read chunk x buffer sizes, listed in c19Scenarios) on two real quic Endpoints with real TLS in a synctest bubble; per scenario the default run (deliver everything in order) plus every placement of <= %d deviations (<= %d for the %d smallest scenarios) from {drop, dup, dup3, hold1, hold3, late (timer first), part (4 s black hole)} over the datagram indices 0..N+3 of the default run (both directions; N measured per scenario); plus 'dead' (permanent black hole) at every index for the smallest scenarios. After the last deviation the network is perfect. Non-trivial = all deviations of the case took effect and the run completed", len(all), kAll, kSmall, len(small)))
-		c.Assume("completion is required within 5 min of fake time and 4000 datagrams after the network heals; default idle/handshake timeouts stay enabled, the deviation durations (<= 4 s) stay far below them")
+		pairMaxN := 40
+		c.Rule(fmt.Sprintf("fault enumeration: %d application scenarios (streams x bytes x write chunking x flush x read chunk x buffer sizes, listed in c19Scenarios) on two real quic Endpoints with real TLS in a synctest bubble; per scenario the default run (deliver everything in order) plus (part k1) every single deviation from {drop, dup, dup3, hold1, hold3, late (timer first), part (4 s black hole)} at every datagram index 0..N+2 of the default run (both directions; N measured per scenario), (part dead) a permanent black hole at every index for the %d smallest scenarios, (part k2..) every placement of 2..k deviations from {drop, dup3, hold1, late, part} at increasing indices, k=%d for every scenario with N<=%d and k=%d for the smallest scenarios. After the last deviation the network is perfect. Non-trivial = all deviations of the case took effect and the run completed", len(all), len(small), kAll, pairMaxN, kSmall))
+		c.Assume("timeouts are outside the property: HandshakeTimeout and MaxIdleTimeout are disabled on both endpoints; instead every application operation must complete (reads to io.EOF, Close()==nil) within 1 h of fake time and 4000 datagrams once the network delivers again")
 		c.Assume("packet-number skipping (the only randomness that changes packet structure) is moved out of reach white-box; connection IDs and TLS randomness only change values. Go select order inside an endpoint is not owned: oracles hold on every outcome")
 		c.Assume("Close()==nil is judged against the peer's qlog (packet_received STREAM frames covering every byte and the FIN) at the moment Close returns")
 
-		// Determinism of the default run (recorded, never a violation).
+		// Default runs: datagram count per scenario, and determinism of the
+		// default run (recorded, never a violation).
+		nOf := map[c19Scn]int{}
 		{
-			det := true
+			det, detSizes := true, true
 			var counts []int
-			for _, sc := range all[:min(len(all), 8)] {
+			for i, sc := range all {
 				a := c19Exec(c.T, c19Case{Scn: sc})
-				b := c19Exec(c.T, c19Case{Scn: sc})
+				nOf[sc] = a.ndgrams
 				counts = append(counts, a.ndgrams)
-				if a.ndgrams != b.ndgrams || a.hashN != b.hashN {
-					det = false
+				if i < 8 && !c.Replaying() {
+					b := c19Exec(c.T, c19Case{Scn: sc})
+					if a.ndgrams != b.ndgrams || a.hashN != b.hashN {
+						det = false
+					}
+					if a.hashS != b.hashS {
+						detSizes = false
+					}
 				}
 			}
 			c.Note("deterministic", det)
-			c.Note("default_run_datagrams_first8", counts)
+			c.Note("deterministic_including_datagram_sizes", detSizes)
+			c.Note("default_run_datagrams_per_scenario", counts)
 		}
 
-		vx.Enumerate(c, "q2", vx.Opts{Serial: true, Crumb: true}, func(yield func(c19Case) bool) {
+		check := func(w *vx.W, cs c19Case) {
+			r := c19Exec(w.Ctx().T, cs)
+			c19Report(w, cs, r)
+		}
+		opts := vx.Opts{Serial: true, Crumb: true}
+
+		vx.Enumerate(c, "k1", opts, func(yield func(c19Case) bool) {
 			for _, sc := range all {
-				base := c19Exec(c.T, c19Case{Scn: sc})
-				n := base.ndgrams + 3
 				if !yield(c19Case{Scn: sc}) {
 					return
 				}
-				k := kAll
-				if isSmall[sc] {
-					k = kSmall
-				}
-				// all placements of 1..k deviations at increasing indices
-				var rec func(devs []c19Dev, from, left int) bool
-				rec = func(devs []c19Dev, from, left int) bool {
-					if left == 0 {
-						return true
-					}
-					for at := from; at < n; at++ {
-						for _, kind := range c19Kinds {
-							nd := append(append([]c19Dev(nil), devs...), c19Dev{At: at, Kind: kind})
-							if !yield(c19Case{Scn: sc, Devs: nd}) {
-								return false
-							}
-							if !rec(nd, at+1, left-1) {
-								return false
-							}
-						}
-					}
-					return true
-				}
-				if !rec(nil, 0, k) {
-					return
-				}
-				if isSmall[sc] {
-					for at := 0; at < n; at++ {
-						if !yield(c19Case{Scn: sc, Devs: []c19Dev{{At: at, Kind: "dead"}}}) {
+				for at := 0; at < nOf[sc]+3; at++ {
+					for _, kind := range c19Kinds {
+						if !yield(c19Case{Scn: sc, Devs: []c19Dev{{At: at, Kind: kind}}}) {
 							return
 						}
 					}
 				}
 			}
-		}, func(w *vx.W, cs c19Case) {
-			r := c19Exec(w.Ctx().T, cs)
-			c19Report(w, cs, r)
-		})
+		}, check)
+		vx.Enumerate(c, "dead", opts, func(yield func(c19Case) bool) {
+			for _, sc := range small {
+				for at := 0; at < nOf[sc]+3; at++ {
+					if !yield(c19Case{Scn: sc, Devs: []c19Dev{{At: at, Kind: "dead"}}}) {
+						return
+					}
+				}
+			}
+		}, check)
+		// exactly k deviations at increasing indices
+		multi := func(part string, k int, scs []c19Scn) {
+			vx.Enumerate(c, part, opts, func(yield func(c19Case) bool) {
+				for _, sc := range scs {
+					n := nOf[sc] + 3
+					var rec func(devs []c19Dev, from int) bool
+					rec = func(devs []c19Dev, from int) bool {
+						if len(devs) == k {
+							return yield(c19Case{Scn: sc, Devs: append([]c19Dev(nil), devs...)})
+						}
+						for at := from; at < n; at++ {
+							for _, kind := range kindsMulti {
+								if !rec(append(devs, c19Dev{At: at, Kind: kind}), at+1) {
+									return false
+								}
+							}
+						}
+						return true
+					}
+					if !rec(nil, 0) {
+						return
+					}
+				}
+			}, check)
+		}
+		multi("k2-small", 2, small)
+		if kAll >= 2 {
+			var rest []c19Scn
+			for _, sc := range all {
+				if !isSmall[sc] && nOf[sc] <= pairMaxN {
+					rest = append(rest, sc)
+				}
+			}
+			sort.SliceStable(rest, func(i, j int) bool { return nOf[rest[i]] < nOf[rest[j]] })
+			multi("k2-all", 2, rest)
+		}
+		if kSmall >= 3 {
+			multi("k3-small", 3, small)
+		}
 	})
 }
-
-var _ = errors.New
